@@ -508,6 +508,9 @@ class SchemaType(SectionType):
     def hasComponent(self, name):
         return name in self._components
 
+    def getcomponents(self):
+        return list(self._components)
+
 
 def createDerivedSchema(base):
     new = SchemaType(base.keytype, base.valuetype, base.datatype,
